@@ -164,7 +164,16 @@ func holdsCmp(conds []domCond, x valPred, op token.Token, n int64) bool {
 		}
 		o := bo.Op
 		if !dc.taken {
-			o = map[token.Token]token.Token{token.LSS: token.GEQ, token.LEQ: token.GTR, token.GTR: token.LEQ, token.GEQ: token.LSS}[o]
+			o = map[token.Token]token.Token{token.LSS: token.GEQ, token.LEQ: token.GTR, token.GTR: token.LEQ, token.GEQ: token.LSS, token.EQL: token.NEQ, token.NEQ: token.EQL}[o]
+		}
+		// equalities: x == c settles both directions; x != lowest value of an unsigned type gives x ≥ 1
+		if o == token.EQL && ((op == token.GEQ && c >= n) || (op == token.LEQ && c <= n)) {
+			return true
+		}
+		if o == token.NEQ && op == token.GEQ {
+			if lo, _, ok := typeRange(bo.X.Type()); ok && c == lo && n <= lo+1 {
+				return true
+			}
 		}
 		switch op {
 		case token.GEQ:
